@@ -43,12 +43,19 @@ def generate(g, tier):
         FAILS = ['$STRING 1/0', 'VAR 1x 5', 'FUNC 2bad\n{u}PASS', 'REPEAT 9i,3\n{u}PASS', 'WHILE 8w,TRUE\n{u}PASS', 'RUN nosuchfunc_zz', '$STRING nosuchvar_zz', 'DELAY "x"',
                  'GUI toolong', '$STRING (1', 'EXIST nosuchvar_zz', 'VAR zz9', 'FUNC okname 1bad,b\n{u}PASS', 'BREAKLOOP 1', '$STRING "a"-1', 'START nosuch', 'ALTCHAR 123456']
         fl = g.r.choice(FAILS).replace('{u}', unit)
-        wrap = g.r.choice(['top', 'top', 'block', 'func', 'loop'])
+        wrap = g.r.choice(['top', 'top', 'block', 'func', 'loop', 'import', 'import'])
         ind = lambda t, k: '\n'.join(unit * k + l for l in t.split('\n'))
         if wrap == 'top': planted = fl
         elif wrap == 'block': planted = 'IF TRUE\n' + ind(fl, 1)
         elif wrap == 'loop': planted = 'REPEAT 1\n' + unit + 'IF TRUE\n' + ind(fl, 2)
         else: planted = 'FUNC planted_f\n' + ind(fl, 1) + '\nRUN planted_f'
+        if wrap == 'import':
+            # the failure is raised while an imported file runs, after the importer and the file itself printed
+            kw = g.r.choice(['START', 'STARTENV', 'STARTCODE'])
+            files = {'proj/main.txt': text + f'\n{kw} failing\nPRINT never', 'proj/failing.txt': 'PRINT in-lib\nIF TRUE\n' + unit + 'PRINT in-lib-block\n' + fl}
+            cases.append(dict(op='compile_file', file='proj/main.txt', files=files,
+                              meta=dict(family='before-failure', errprints=exp[2] + [['in-lib', 1, None], ['in-lib-block', 3, None]], returns=it.ended_by_return)))
+            continue
         t3 = text + '\n' + planted
         cases.append(dict(op='compile', src=dict(text=t3), meta=dict(family='before-failure', errprints=exp[2], returns=it.ended_by_return)))
     r = g.r
